@@ -4,7 +4,8 @@ packed streams are the member bytes themselves) and read by the real code under 
 
 Shapes drawn (seeded): up to 4 folders holding 0..4 members each (zero-stream folders included), directories and
 empty files interleaved at any position, CRCs stored per substream / at folder level / not at all, optional records
-present or absent, SubStreamsInfo left out when it may be, a gap before the packed streams, both Digests spellings.
+present or absent, SubStreamsInfo left out when it may be, a gap before the packed streams, both Digests spellings,
+attributes stored for all members / for none / only for the members with data.
 Oracle = the description the archive was written from:
   C10  getnames()/list() give the names in stored order, each member's size, directory flag and stored CRC;
   C06  extractall() to memory returns exactly the bytes of every file member; extract(targets=...) returns exactly
@@ -32,8 +33,10 @@ def bitvec(flags):
     return bytes(bits)
 
 
-def files_info(members):
-    """FilesInfo: 0x05 NUMBER count, then properties (id, NUMBER size, data), END"""
+def files_info(members, attributes="all"):
+    """FilesInfo: 0x05 NUMBER count, then properties (id, NUMBER size, data), END.
+    attributes: 'all' (one word per member), 'none' (no Attributes property at all: the kind of a member without data
+    follows from EmptyStream / EmptyFile alone), 'files' (defined for members with data only, bit vector spelling)"""
     o = b"\x05" + S.number(len(members))
     empties = [m["kind"] != "file" or m["folder"] is None for m in members]
     if any(empties):
@@ -45,8 +48,14 @@ def files_info(members):
             o += b"\x0f" + S.number(len(v)) + v
     names = b"\x00" + b"".join(m["name"].encode("utf-16-le") + b"\x00\x00" for m in members)
     o += b"\x11" + S.number(len(names)) + names
-    attrs = b"\x01\x00" + b"".join(struct.pack("<L", 0x10 if m["kind"] == "dir" else 0x20) for m in members)
-    o += b"\x15" + S.number(len(attrs)) + attrs
+    if attributes == "all":
+        attrs = b"\x01\x00" + b"".join(struct.pack("<L", 0x10 if m["kind"] == "dir" else 0x20) for m in members)
+        o += b"\x15" + S.number(len(attrs)) + attrs
+    elif attributes == "files":
+        flags = [m["folder"] is not None for m in members]
+        if any(flags):
+            attrs = (b"\x01" if all(flags) else b"\x00" + bitvec(flags)) + b"\x00" + b"".join(struct.pack("<L", 0x20) for f in flags if f)
+            o += b"\x15" + S.number(len(attrs)) + attrs
     return o + b"\x00"
 
 
@@ -56,7 +65,7 @@ def build(d):
     hdr = b"\x01"
     if d["folders"]:
         hdr += b"\x04" + S.encode(d)
-    hdr += files_info(d["members"]) + b"\x00"
+    hdr += files_info(d["members"], d.get("attributes", "all")) + b"\x00"
     gap = b"\xaa" * d["packpos"]
     body = gap + packed
     start = struct.pack("<QQL", len(body), len(hdr), zlib.crc32(hdr))
@@ -107,7 +116,7 @@ def draw(rnd):
         pcrc = [zlib.crc32(b"".join(bytes.fromhex(m["data"]) for m in members if m["folder"] == i)) if rnd.random() < 0.6 else None for i in range(nf)]
         if all(c is None for c in pcrc):
             pcrc = None
-    return {"packpos": rnd.choice([0, 0, 0, 5, 40]), "packsizes": [f["unpacksizes"][0] for f in folders], "pack_crc": pcrc, "folders": folders, "substreams": ss, "spell_all": rnd.random() < 0.5, "members": members, "targets_seed": rnd.getrandbits(16)}
+    return {"packpos": rnd.choice([0, 0, 0, 5, 40]), "packsizes": [f["unpacksizes"][0] for f in folders], "pack_crc": pcrc, "folders": folders, "substreams": ss, "spell_all": rnd.random() < 0.5, "members": members, "targets_seed": rnd.getrandbits(16), "attributes": rnd.choice(["all", "all", "none", "files"])}
 
 
 def effective_crc(d, m, idx_in_folder):
